@@ -77,11 +77,14 @@ class Tensor:
         self.alloc = next(_alloc)
         self._cache = {}
         self.base = base  # view of another tensor (in-place writes through views are not supported)
+        self.tainted = False
 
     # ---- element access -------------------------------------------------------------------
     def at(self, *idx):
         if len(idx) != len(self.shape):
             raise Unsupported(f"index arity {len(idx)} for shape {self.shape}")
+        if self.tainted:
+            raise Unsupported("read of an array that was modified through a view")
         key = idx_key(idx)
         if key in self._cache:
             return self._cache[key]
@@ -90,11 +93,18 @@ class Tensor:
         return v
 
     def frozen(self):
+        if self.tainted:
+            raise Unsupported("read of an array that was modified through a view")
         return _Frozen(self.shape, self._fn, self._cache, self.dtype)
 
     def set_fn(self, fn, what="write"):
         if self.base is not None:
-            raise Unsupported("in-place write through a view")
+            # writing through a view changes the base array too; we do not model that, so the base (and its
+            # bases) become unreadable: any later read of them is outside the subset
+            b = self.base
+            while b is not None:
+                b.tainted = True
+                b = getattr(b, "base", None)
         self._fn = fn
         self._cache = {}
         c = ctx()
@@ -550,6 +560,12 @@ def reshape(t, shape):
     t = t.frozen()
     # resolve -1
     if any(isinstance(s, int) and s == -1 for s in shape):
+        # common case: (n, m) -> (-1, m) and empty (0,) -> (-1, m)
+        if len(shape) == 2 and shape[0] == -1:
+            if t.ndim == 2 and dim_eq(t.shape[1], shape[1]):
+                return Tensor(t.shape, t.at, dtype=t.dtype, base=tensor_in)
+            if t.ndim == 1 and dim_is(t.shape[0], 0):
+                return Tensor((0, shape[1]), lambda i, j: 0.0, dtype=t.dtype)
         known = 1
         for s in shape:
             if not (isinstance(s, int) and s == -1):
